@@ -126,6 +126,8 @@ class Exchange:
                     rep["cancelledDate"] = bet["cancelledDate"]
             elif oc["status"] == "FAILURE":
                 rep["errorCode"] = oc.get("error", "BET_ACTION_ERROR")
+                if rep["errorCode"] == "BET_TAKEN_OR_LAPSED" and bet is not None and bet["sizeRemaining"] > 0:
+                    self.lapse(bet["betId"])  # the exchange only says so when the bet really is gone
             reports.append(rep)
         order = plan.get("order")
         if order:
@@ -202,6 +204,8 @@ class Exchange:
                         status = "FAILURE"
             elif oc["status"] == "FAILURE":
                 crep["errorCode"] = oc.get("error", "BET_ACTION_ERROR")
+                if crep["errorCode"] == "BET_TAKEN_OR_LAPSED" and bet is not None and bet["sizeRemaining"] > 0:
+                    self.lapse(bet["betId"])
             reports.append({"status": status, "cancelInstructionReport": crep, "placeInstructionReport": prep})
         st = "SUCCESS" if all(r["status"] == "SUCCESS" for r in reports) else "FAILURE"
         rec["reports"] = reports
